@@ -11,54 +11,12 @@ from concurrent.futures import ThreadPoolExecutor
 
 VERIF = os.path.dirname(os.path.dirname(os.path.abspath(__file__)))
 sys.path.insert(0, VERIF)
-from sa import normalise as N      # noqa: E402
 
 PROPS = ['C%02d' % i for i in range(1, 21)]
 SUITE = ['/venv/bin/python', '-m', 'pytest', '-q', '-p', 'no:cacheprovider', '--timeout=900', '--continue-on-collection-errors']
 
 
-def load(repo):
-    trees, paths = {}, {}
-    for dp, dn, fn in os.walk(os.path.join(repo, 'playback')):
-        for f in fn:
-            if f.endswith('.py'):
-                p = os.path.join(dp, f)
-                mn = os.path.relpath(p, repo)[:-3].replace('/', '.')
-                trees[mn] = ast.parse(open(p, encoding='utf-8').read())
-                paths[mn] = p
-    return trees, paths
-
-
-def candidates(repo):
-    trees, _ = load(repo)
-    out = []
-    for mn, t in trees.items():
-        for s in t.body:
-            if isinstance(s, ast.FunctionDef) and s.name.startswith('_') and not s.name.startswith('__'):
-                out.append(s.name)
-            if isinstance(s, ast.ClassDef):
-                for m in s.body:
-                    if isinstance(m, ast.FunctionDef) and m.name.startswith('_') and not m.name.startswith('__'):
-                        out.append(m.name)
-    return sorted(set(out))
-
-
-def make_variant(repo, name, dst):
-    """returns (inlined sites, reason-if-none)"""
-    trees, paths = load(repo)
-    before = {mn: ast.dump(t) for mn, t in trees.items()}
-    nz = N.Normaliser(trees, set(N.pinned_names()) - {name}, inline_only=True).run()
-    sites = [x for x in nz.inlined if x[0] == name]
-    if not sites:
-        why = [x[2] for x in nz.skipped if x[0] == name]
-        return [], (why[0] if why else 'not eligible (public use / decorated / generator / overridden / no call)')
-    shutil.copytree(repo, dst, ignore=shutil.ignore_patterns('.git', '__pycache__', '*.pyc'))
-    for mn, t in trees.items():
-        if ast.dump(t) != before[mn]:
-            ast.fix_missing_locations(t)
-            with open(os.path.join(dst, os.path.relpath(paths[mn], repo)), 'w', encoding='utf-8') as f:
-                f.write(ast.unparse(t) + '\n')
-    return sites, None
+from sa.inline_variants import load, candidates, make_variant, TEST_PINNED, UNMODELLED      # noqa: E402
 
 
 def suite(dst):
@@ -120,9 +78,12 @@ def main():
             continue
         made += 1
         fails = res['checks']
-        st = 'silent' if not fails else 'ALARM ' + ','.join('%s(rc=%d)' % (p, v['rc']) for p, v in sorted(fails.items()))
-        if fails:
+        expected2 = name in UNMODELLED and all(v['rc'] == 2 for v in fails.values())
+        st = 'silent' if not fails else ('unmodelled (exit 2, listed) ' if expected2 else 'ALARM ') + ','.join('%s(rc=%d)' % (p, v['rc']) for p, v in sorted(fails.items()))
+        if fails and not expected2 and name not in TEST_PINNED:
             bad += 1
+        if name in TEST_PINNED:
+            st += ' [not neutral: the tests use this name]'
         print('%-48s %s %s sites=%d' % (name, st, res.get('suite', ''), len(res['sites'])))
         for p, v in sorted(fails.items()):
             for l in v['lines'][:2]:
